@@ -9,22 +9,31 @@
    verify to the content and no altered proof verifies to a different value;
    nothing panics.
 
-   What is proved here (`_partial` = restricted to histories of update / delete /
-   get on a loaded trie, hashed at the end; the hasher's reuse of cached hashes
-   across intermediate Hash/Commit calls, unloading to hash nodes, reloading
-   through the node database, iteration and proof generation/verification are
-   tied to the code by the correspondence runs and direct oracles of
-   harness/cmd/c10 only — no theorem covers them yet).  The clause "nothing
-   panics" is false of the code: see the two `_refuted` theorems.
+   What is proved here.  `_partial` marks theorems whose histories are restricted
+   to update / delete / get / hash in any order (Hash() anywhere in between, so
+   the hasher's reuse of cached hashes is covered) on a trie held in memory;
+   commit + reopen is covered by C10_commit_reopen_partial for one commit of a
+   trie without cached hashes; repeated commits with cache-generation unloading
+   (SetCacheLimit) and Prove are tied to the code by the correspondence runs and
+   direct oracles of harness/cmd/c10 only.  Full: the specification root is a
+   function of the finite map; decodeNode / VerifyProof are total (no panic);
+   VerifyProof is sound for every set of proof nodes under collision freedom of
+   H on the strings compared.  Refuted: absence in the EMPTY trie has no
+   verifiable proof.
 
-   Vocabulary: `fresh_trie t` = canonical shape (TrieInv.canon: no short->short,
-   no single-child branch, no empty value, no unresolved hash node) and no cached
-   hash; `tmap t k` = lookup of byte key k in the abstract content; `tcontent t`
-   = abstract content (terminated nibble keys); `mpt_root_hex H J` / `mpt_root H c`
-   = the Yellow-Paper root of a content (Trie/MptSpec.v). *)
+   Vocabulary: `warm_trie H t` (TrieFlagsProofs) = canonical shape (TrieInv.canon:
+   no short->short, no single-child branch, no empty value, no unresolved hash
+   node) + every cached hash is the hash of the node's specification encoding
+   (below the root only cached for encodings >= 32 bytes); `tmap t k` / `wmap t k`
+   = lookup of byte key k in the abstract content; `tcontent t` = abstract content
+   (terminated nibble keys); `mpt_root_hex H J` / `mpt_root H c` = the Yellow-Paper
+   root of a content (Trie/MptSpec.v); `plain_op` = update | delete | get | hash;
+   `op_map` = the finite-map meaning of an operation; `trace_ok H m ops obl` = every
+   observation in obl is the one a canonical trie representing the current map
+   gives (get = map lookup, hash = specification root of the content). *)
 From Coq Require Import Permutation.
 From AQ Require Import Lib.Bytes Lib.Keccak Rlp.RlpSpec Trie.MptSpec Trie.TrieModel Trie.TrieInv
-  Trie.MptSpecProofs Trie.TrieTheorems.
+  Trie.MptSpecProofs Trie.TrieCodecDefs Trie.TrieFlagsProofs Trie.TrieTheorems Trie.TrieReopenProofs.
 Local Open Scope N_scope.
 
 (* TryGet returns exactly the content and leaves the trie unchanged *)
@@ -33,49 +42,129 @@ Theorem C10_get_is_content_partial : forall t d k,
 Proof. exact trie_get_spec. Qed.
 Print Assumptions C10_get_is_content_partial.
 
-(* TryUpdate: never fails, keeps the canonical shape, is the finite-map update *)
-Theorem C10_update_refines_map_partial : forall t d k v, fresh_trie t -> v <> [] ->
-  exists t', trie_update t d k v = Ok t' /\ fresh_trie t' /\ tgen t' = tgen t /\ tlimit t' = tlimit t /\
-    forall k', tmap t' k' = if bytes_eqb k k' then Some v else tmap t k'.
-Proof. exact trie_update_spec. Qed.
+(* TryUpdate: never fails, keeps the invariant, is the finite-map update *)
+Theorem C10_update_refines_map_partial : forall (H : bytes -> bytes) t d k v, warm_trie H t -> v <> [] ->
+  exists t', trie_update t d k v = Ok t' /\ warm_trie H t' /\ tgen t' = tgen t /\ tlimit t' = tlimit t /\
+    forall k', wmap t' k' = if bytes_eqb k k' then Some v else wmap t k'.
+Proof. exact trie_update_warm. Qed.
 Print Assumptions C10_update_refines_map_partial.
 
 (* TryDelete (and TryUpdate with an empty value): same, removing the key *)
-Theorem C10_delete_refines_map_partial : forall t d k, fresh_trie t ->
-  exists t', trie_delete t d k = Ok t' /\ fresh_trie t' /\ tgen t' = tgen t /\ tlimit t' = tlimit t /\
-    forall k', tmap t' k' = if bytes_eqb k k' then None else tmap t k'.
-Proof. exact trie_delete_spec. Qed.
+Theorem C10_delete_refines_map_partial : forall (H : bytes -> bytes) t d k, warm_trie H t ->
+  exists t', trie_delete t d k = Ok t' /\ warm_trie H t' /\ tgen t' = tgen t /\ tlimit t' = tlimit t /\
+    forall k', wmap t' k' = if bytes_eqb k k' then None else wmap t k'.
+Proof. exact trie_delete_warm. Qed.
 Print Assumptions C10_delete_refines_map_partial.
 
-(* every history from the empty trie succeeds, ends in a canonical trie, and
-   denotes the finite map obtained by replaying it on a map *)
-Theorem C10_history_refines_map_partial : forall ops d,
-  exists t, apply_ops empty_trie d ops = Ok t /\ fresh_trie t /\
-            forall k, tmap t k = map_ops (fun _ => None) ops k.
-Proof. exact history_spec. Qed.
-Print Assumptions C10_history_refines_map_partial.
-
-(* Trie.Hash of a canonical trie is the specification's root of its content
-   (inline rule for encodings shorter than 32 bytes, hex-prefix keys, H above) *)
-Theorem C10_root_is_spec_root_partial : forall H : bytes -> bytes,
+(* Trie.Hash — with whatever hashes are cached from earlier Hash() calls — is the
+   specification's root of the content, and keeps content and invariant *)
+Theorem C10_hash_is_spec_root_partial : forall H : bytes -> bytes,
   (forall x, length (H x) = 32%nat) ->
-  forall t, fresh_trie t ->
-  exists t', trie_hash H t = Ok (mpt_root_hex H (tcontent t), t') /\ erase (troot t') = erase (troot t).
-Proof. exact trie_hash_spec. Qed.
-Print Assumptions C10_root_is_spec_root_partial.
+  forall t, warm_trie H t ->
+  exists t', trie_hash H t = Ok (mpt_root_hex H (content_of (troot t)), t') /\ warm_trie H t' /\
+    erase (troot t') = erase (troot t) /\ content_of (troot t') = content_of (troot t) /\
+    tgen t' = tgen t /\ tlimit t' = tlimit t.
+Proof. exact trie_hash_warm. Qed.
+Print Assumptions C10_hash_is_spec_root_partial.
 
-(* the root is a function of the content alone: any two histories of updates
-   and deletes (any order, any intermediate values, any databases) that end with
-   the same content end with the same root — the specification's *)
+(* every history of update / delete / get / hash from the empty trie: all
+   operations succeed, the final trie represents the finite map the history
+   denotes, and every observation (each get, each intermediate root) is the one
+   that map gives *)
+Theorem C10_history_observations_partial : forall H : bytes -> bytes,
+  (forall x, length (H x) = 32%nat) ->
+  forall ops, forallb plain_op ops = true ->
+  exists s' obl, run_ops H init_state ops = (s', obl) /\ warm_trie H (strie s') /\ sdb s' = [] /\
+    (forall k, tmap (strie s') k = fold_left op_map ops (fun _ => None) k) /\
+    trace_ok H (fun _ => None) ops obl.
+Proof. exact plain_history_spec. Qed.
+Print Assumptions C10_history_observations_partial.
+
+(* the root is a function of the content alone: two such histories (any order,
+   any intermediate values, Hash() anywhere) that denote the same finite map end
+   with the same root — the specification's *)
 Theorem C10_root_depends_on_content_only_partial : forall H : bytes -> bytes,
   (forall x, length (H x) = 32%nat) ->
-  forall ops1 ops2 d1 d2 t1 t2,
-  apply_ops empty_trie d1 ops1 = Ok t1 -> apply_ops empty_trie d2 ops2 = Ok t2 ->
-  (forall k, lookup (tcontent t1) k = lookup (tcontent t2) k) ->
-  exists r t1' t2', trie_hash H t1 = Ok (r, t1') /\ trie_hash H t2 = Ok (r, t2') /\
-                    r = mpt_root_hex H (tcontent t1).
-Proof. exact history_root_content_only. Qed.
+  forall ops1 ops2 s1 s2 ob1 ob2,
+  forallb plain_op ops1 = true -> forallb plain_op ops2 = true ->
+  run_ops H init_state ops1 = (s1, ob1) -> run_ops H init_state ops2 = (s2, ob2) ->
+  (forall kb, fold_left op_map ops1 (fun _ => None) kb = fold_left op_map ops2 (fun _ => None) kb) ->
+  exists r t1' t2', trie_hash H (strie s1) = Ok (r, t1') /\ trie_hash H (strie s2) = Ok (r, t2') /\
+                    r = mpt_root_hex H (tcontent (strie s1)).
+Proof. exact plain_history_root_map_only. Qed.
 Print Assumptions C10_root_depends_on_content_only_partial.
+
+(* iteration lists exactly the content (values and byte keys, in the iterator's
+   order); `hexmap t`: every content key is the nibble form of a byte key (true
+   of every trie built by TryUpdate: run_hexmap); keys up to 49 bytes (fuel 200) *)
+Theorem C10_iterate_is_content_partial : forall H : bytes -> bytes,
+  (forall x, length (H x) = 32%nat) ->
+  forall t d, warm_trie H t -> hexmap t -> (max_key_len (tcontent t) <= 99)%nat ->
+  exists l t', trie_iterate H t d = Ok (l, t') /\ warm_trie H t' /\
+    map snd l = map snd (tcontent t) /\ map (fun kv => keybytes_to_hex (fst kv)) l = map fst (tcontent t).
+Proof. exact trie_iterate_spec. Qed.
+Print Assumptions C10_iterate_is_content_partial.
+
+(* VerifyProof is sound for EVERY set of proof nodes (so for every altered
+   proof): whatever it returns for key is the content's answer (Some v, or None
+   = absent).  root_node: the canonical trie the root commits to; all_fits: RLP
+   sizes fit 64 bits; premise: H is collision free on the strings compared (a
+   proof element hashing like a node's encoding IS that encoding).  (full) *)
+Theorem C10_verify_sound : forall H : bytes -> bytes,
+  (forall x, length (H x) = 32%nat) ->
+  forall root_node, canon root_node = true -> all_fits H root_node ->
+  forall nodes : list bytes,
+  (forall buf m, In buf nodes -> canon m = true -> H buf = H (spec_enc H m) -> buf = spec_enc H m) ->
+  forall key v,
+    verify_proof (mpt_root_hex H (content_of root_node)) key (proof_db_of H nodes) = Ok v ->
+    v = lookup (content_of root_node) (keybytes_to_hex key).
+Proof. exact TrieVerifyProofs.verify_sound_closed. Qed.
+Print Assumptions C10_verify_sound.
+
+(* Commit writes every node that is referenced by hash; trie.New on the returned
+   root + TryGet on the lazily loaded trie (hash nodes resolved through the
+   database, decodeNode of the stored encodings) returns exactly the content.
+   db_sound d: every blob of d is the encoding of a canonical node under its hash
+   (true of [] and preserved by Commit).  Premises: collision freedom of H on the
+   encodings of canonical nodes; the committed root differs from the two roots
+   trie.New treats as "empty" (zero hash, emptyRoot) — also collision freedom.
+   `_partial`: one Commit of a trie without cached hashes (no unloading yet). *)
+Theorem C10_commit_reopen_partial : forall H : bytes -> bytes,
+  (forall x, length (H x) = 32%nat) ->
+  (forall m1 m2, canon m1 = true -> canon m2 = true -> H (spec_enc H m1) = H (spec_enc H m2) ->
+                 spec_enc H m1 = spec_enc H m2) ->
+  forall t d r t' d',
+  canon_root (troot t) = true -> nohash (troot t) = true -> all_fits H (troot t) -> db_sound H d ->
+  trie_commit H t d = Ok (r, t', d') ->
+  r <> zero_hash -> (troot t <> NNil -> r <> empty_root H) ->
+  r = mpt_root_hex H (content_of (troot t)) /\ db_sound H d' /\
+  exists t2, trie_new H r d' = Ok t2 /\
+    forall k, exists t3, trie_get t2 d' k = Ok (lookup (content_of (troot t)) (keybytes_to_hex k), t3).
+Proof. exact commit_reopen. Qed.
+Print Assumptions C10_commit_reopen_partial.
+
+(* ... in terms of histories: updates/deletes, Commit, reopen: every TryGet on the
+   reopened trie returns what the history's finite map says *)
+Theorem C10_history_commit_reopen_partial : forall H : bytes -> bytes,
+  (forall x, length (H x) = 32%nat) ->
+  (forall m1 m2, canon m1 = true -> canon m2 = true -> H (spec_enc H m1) = H (spec_enc H m2) ->
+                 spec_enc H m1 = spec_enc H m2) ->
+  forall ops d t r t' d',
+  apply_ops empty_trie d ops = Ok t -> all_fits H (troot t) -> db_sound H d ->
+  trie_commit H t d = Ok (r, t', d') -> r <> zero_hash -> (troot t <> NNil -> r <> empty_root H) ->
+  r = mpt_root_hex H (tcontent t) /\
+  exists t2, trie_new H r d' = Ok t2 /\
+    forall k, exists t3, trie_get t2 d' k = Ok (map_ops (fun _ => None) ops k, t3).
+Proof. exact history_commit_reopen. Qed.
+Print Assumptions C10_history_commit_reopen_partial.
+
+(* the premise on H is met by the Gallina Keccak-256 the executable model uses *)
+Theorem C10_keccak_instance : forall ops, forallb plain_op ops = true ->
+  exists s' obl, run_ops keccak256 init_state ops = (s', obl) /\ warm_trie keccak256 (strie s') /\ sdb s' = [] /\
+    (forall k, tmap (strie s') k = fold_left op_map ops (fun _ => None) k) /\
+    trace_ok keccak256 (fun _ => None) ops obl.
+Proof. exact (plain_history_spec keccak256 keccak256_length). Qed.
+Print Assumptions C10_keccak_instance.
 
 (* the specification root itself does not depend on the order in which the
    content is listed (full) *)
@@ -91,19 +180,18 @@ Theorem C10_spec_root_extensional : forall (H : bytes -> bytes) J J',
 Proof. exact mpt_root_hex_ext. Qed.
 Print Assumptions C10_spec_root_extensional.
 
-(* "decodeNode / VerifyProof never panic on arbitrary node bytes":
-     forall buf, decode_node_top None buf 0 <> Panic
-     forall H root key nodes, verify_proof root key (proof_db_of H nodes) <> Panic
-   Both are FALSE of the code (trie/encoding.go compactToHex indexes base[0] of
-   an empty compact key; reached from decodeShort): witness node c2 80 76. *)
-Theorem C10_decode_never_panics_refuted : exists buf, decode_node_top None buf 0 = Panic.
-Proof. exact decode_node_panics. Qed.
-Print Assumptions C10_decode_never_panics_refuted.
+(* decodeNode / VerifyProof never panic, whatever bytes they are given (full; true
+   since the fix of compactToHex for the empty compact key — before it the node
+   c2 80 76 was a counter-example), and the model's fuel is always sufficient *)
+Theorem C10_decode_never_panics : forall hash buf gen,
+  decode_node_top hash buf gen <> Panic /\ decode_node_top hash buf gen <> OutOfFuel.
+Proof. exact decode_top_total. Qed.
+Print Assumptions C10_decode_never_panics.
 
-Theorem C10_verify_never_panics_refuted : forall H : bytes -> bytes,
-  exists root key nodes, verify_proof root key (proof_db_of H nodes) = Panic.
-Proof. exact verify_proof_panics. Qed.
-Print Assumptions C10_verify_never_panics_refuted.
+Theorem C10_verify_never_panics : forall (H : bytes -> bytes) root key nodes,
+  verify_proof root key (proof_db_of H nodes) <> Panic.
+Proof. exact verify_never_panics. Qed.
+Print Assumptions C10_verify_never_panics.
 
 (* "VerifyProof (root, k, Prove k) = the content's answer for k (value or absence)":
      forall H t d k p root, fresh_trie t -> trie_hash H t = Ok (root, _) -> trie_prove H t d k = Ok p ->
@@ -141,3 +229,41 @@ Example C10_example :
   | _ => false
   end = true.
 Proof. vm_compute. reflexivity. Qed.
+
+(* non-vacuity of the commit/reopen and proof theorems: the same trie meets
+   `all_fits`, `db_sound []` holds, the committed root is neither the zero hash nor
+   emptyRoot, and (by computation with the Gallina Keccak) reopening and reading
+   back, iterating, and Prove + VerifyProof give the content *)
+Example C10_example_commit_reopen_prove :
+  let s2b := map (fun n => n2b n) in
+  let do_ := s2b [100; 111] in let dog := s2b [100; 111; 103] in
+  let doge := s2b [100; 111; 103; 101] in let horse := s2b [104; 111; 114; 115; 101] in
+  let verb := s2b [118; 101; 114; 98] in let puppy := s2b [112; 117; 112; 112; 121] in
+  let coin := s2b [99; 111; 105; 110] in let stallion := s2b [115; 116; 97; 108; 108; 105; 111; 110] in
+  let ops := [(doge, coin); (horse, stallion); (do_, verb); (dog, puppy)] in
+  match apply_ops empty_trie [] ops with
+  | Ok t =>
+    all_fits keccak256 (troot t) /\ db_sound keccak256 [] /\
+    match trie_commit keccak256 t [] with
+    | Ok (r, _, d') =>
+      negb (bytes_eqb r zero_hash) && negb (bytes_eqb r (empty_root keccak256)) &&
+      match trie_new keccak256 r d' with
+      | Ok t2 =>
+        match trie_get t2 d' dog, trie_get t2 d' (s2b [100]), trie_iterate keccak256 t2 d', trie_prove keccak256 t [] dog with
+        | Ok (Some v, _), Ok (None, _), Ok (l, _), Ok p =>
+          bytes_eqb v puppy && Nat.eqb (length l) 4 &&
+          match verify_proof r dog p, verify_proof r (s2b [100; 111; 103; 103]) p with
+          | Ok (Some v'), Ok None => bytes_eqb v' puppy
+          | _, _ => false
+          end
+        | _, _, _, _ => false
+        end
+      | _ => false
+      end
+    | _ => false
+    end = true
+  | _ => False
+  end.
+Proof.
+  vm_compute. repeat split; try reflexivity. intros h e Hd. discriminate Hd.
+Qed.
